@@ -126,7 +126,7 @@ func genC11(t *rapid.T) C11Case {
 			c.Victim = a.Idx
 		}
 	}
-	if rapid.IntRange(0, 5).Draw(t, "bootroll") == 0 {
+	if rapid.IntRange(0, 3).Draw(t, "bootroll") == 0 {
 		c.Bootstrap = rapid.IntRange(1, 4).Draw(t, "bootstrap")
 	}
 	intents := func(label string) []kit.Intent {
@@ -147,9 +147,9 @@ func genC11(t *rapid.T) C11Case {
 	nb := rapid.IntRange(1, 2).Draw(t, "nbyz")
 	for i := 0; i < nb; i++ {
 		b := ByzSpec{Dial: rapid.Bool().Draw(t, "dial"), DelayMS: rapid.SampledFrom([]int{0, 0, 50, 300}).Draw(t, "bdelay")}
-		rpcs := []string{"headers", "blocks", "blocks", "checkpoint", "checkpoint", "relay-header", "relay-outline", "relay-outline", "relay-txset", "none"}
+		rpcs := []string{"headers", "blocks", "blocks", "checkpoint", "checkpoint", "relay-header", "relay-outline", "relay-outline", "relay-txset", "none", "none", "none"}
 		b.Corr.RPC = rapid.SampledFrom(rpcs).Draw(t, "rpc")
-		if c.Bootstrap > 0 && rapid.Bool().Draw(t, "bootcp") {
+		if c.Bootstrap > 0 && rapid.IntRange(0, 3).Draw(t, "bootcp") > 0 {
 			b.Corr.RPC = "checkpoint"
 		}
 		if kinds := p2px.ByzKinds[b.Corr.RPC]; len(kinds) > 0 {
@@ -158,7 +158,7 @@ func genC11(t *rapid.T) C11Case {
 		b.Corr.Arg = rapid.IntRange(0, 40).Draw(t, "arg")
 		// the claimed chain
 		switch k := rapid.IntRange(0, 9).Draw(t, "claim"); {
-		case k < 3 || strings.HasPrefix(b.Corr.RPC, "relay"):
+		case k < 3:
 			b.Tip = hIdx // the honest chain itself; the lie is on the wire only
 		default:
 			// a branch forking off the honest chain, longer than what is left of it
@@ -305,16 +305,26 @@ func runC11(c C11Case, cs *kit.CaseStats) error {
 			for _, b := range byz {
 				go b.ServeInbound(nil)
 			}
-			var addrs []string
+			// first from the Byzantine peers alone (their answer, if it counts as
+			// successful, is the one that gets used), then from the honest ones
+			var addrs, haddrs []string
 			for _, b := range byz {
 				addrs = append(addrs, b.NetAddress)
 			}
 			for _, h := range honest {
-				addrs = append(addrs, h.Addr())
+				haddrs = append(haddrs, h.Addr())
 			}
 			ctx, cancel := context.WithTimeout(context.Background(), 30*time.Second)
 			st, blk, rerr := syncer.RetrieveCheckpoint(ctx, addrs, cp.Index(), tr.Network, genesisID)
 			cancel()
+			if rerr != nil {
+				cs.Class("bootstrap:byzantine-answers-rejected")
+				ctx, cancel := context.WithTimeout(context.Background(), 30*time.Second)
+				st, blk, rerr = syncer.RetrieveCheckpoint(ctx, haddrs, cp.Index(), tr.Network, genesisID)
+				cancel()
+			} else {
+				cs.Class("bootstrap:byzantine-answer-accepted")
+			}
 			if rerr != nil {
 				cs.Inconclusive("retrieve-checkpoint-failed")
 				return nil
@@ -505,9 +515,17 @@ func runC11(c C11Case, cs *kit.CaseStats) error {
 	quiescent := false
 	rounds, reconnects := 0, 0
 	why := ""
+	lastIter := time.Now()
 	for time.Since(start) < netBudget() {
 		time.Sleep(netTick)
 		rounds++
+		iterLag := time.Since(lastIter)
+		lastIter = time.Now()
+		if iterLag > 5*netTick {
+			// the machine is starved: relays and syncs may be lagging as well, so
+			// this is no time to conclude that nothing is going on
+			lastChange = time.Now()
+		}
 		victim.CM.SampleWork()
 		changed := false
 		if s := victim.Node.CM.Tip().String(); s != prev {
